@@ -53,18 +53,10 @@ def assignIntersection (lhs : Nat → K) (nL : Nat) (rhs : Nat → K) (nR off : 
   else
     setSlc lhs (pySlice .full nL) (getS rhs (pySlice .full nR))
 
-/-- The explicit `raise ValueError` branches of `_apply_padding`, in source order
-(`n_lhs > n_rhs` is the caller's condition for entering them). -/
+/-- The explicit `raise ValueError` branches of `_apply_padding` (`n_lhs > n_rhs` is the
+condition for entering them): the GENERATED guard table, in source order. -/
 def paddingGuards (mode : Mode) (nL nR off : Nat) : Option Err :=
-  let nPadL : Int := off
-  let nPadR : Int := (nL : Int) - nR - off
-  if mode = .order0 ∧ nR = 0 then some .order0Empty
-  else if mode = .order1 ∧ nR < 2 then some .order1Short
-  else if mode = .periodic ∧ nPadL > nR then some .periodicTooLong
-  else if mode = .symmetric ∧ nPadL ≥ nR then some .symmetricTooLong
-  else if mode = .periodic ∧ nPadR > nR then some .periodicTooLong
-  else if mode = .symmetric ∧ nPadR ≥ nR then some .symmetricTooLong
-  else none
+  PadSlices.guards mode (off : Int) (nL : Int) (nR : Int)
 
 def SliceSpec.widenStop (s : SliceSpec) : SliceSpec := ⟨s.start, s.stop.map (· + 1), s.rev⟩
 def SliceSpec.widenStart (s : SliceSpec) : SliceSpec := ⟨s.start.map (· - 1), s.stop, s.rev⟩
@@ -81,8 +73,8 @@ def applyPadding (mode : Mode) (dir : Dir) (lhs : Nat → K) (nL nR off : Nat) :
   let nLarge : Int := (max nL nR : Nat)
   let nSmall : Int := (min nL nR : Nat)
   -- `n_pad_l`, `n_pad_r` of `_apply_padding` itself (used by the `np.arange`s of order1)
-  let nPadL : Int := off
-  let nPadR : Int := (nL : Int) - nR - off
+  let nPadL : Int := PadSlices.nPadL offI nL nR
+  let nPadR : Int := PadSlices.nPadR offI nL nR
   let outerL := pySlice (PadSlices.outer offI nLarge nSmall).1 nL
   let outerR := pySlice (PadSlices.outer offI nLarge nSmall).2 nL
   let innerSpec := PadSlices.inner mode offI nLarge nSmall
